@@ -4,6 +4,8 @@ import HpxVerif.Lemmas.BmocLower
 import HpxVerif.Lemmas.BmocBuilder
 import HpxVerif.Lemmas.BmocOr2
 
+set_option autoImplicit false   -- an unknown identifier in a statement is an error, never a new variable
+
 /-!
 # C15 — BMOC builders preserve exactly what was pushed
 
